@@ -10,9 +10,13 @@ message `m` subject only to unforgeability (`authentic`), `timeout i r` (`Contro
 every `r`, so stale timers are included).  Light node, no runner compaction (that is C06's clause).
 
 Unforgeability (`authentic`): for every signed part `b` of the delivered message (the message itself, every round-change
-justification, every prepare justification inside those or inside the message) with `sigOk = true`, every CORRECT operator
-listed in `b.signers` has previously broadcast a message with the same (type, height, round, root, dataRound). For an
-aggregated commit / decided message this says: every correct listed signer broadcast a commit for that (height, round, root).
+justification, every prepare justification inside those or inside the message) with `sigOk = true` AND the instance's own
+identifier (`ownIdent`), every CORRECT operator listed in `b.signers` has previously broadcast a message with the same
+(identifier, type, height, round, root, dataRound). For an aggregated commit / decided message this says: every correct listed
+signer broadcast a commit for that (height, round, root).
+Signed parts with a FOREIGN identifier are adversary-controlled: correct operators run the instances of the validator's other
+duty roles with the same keys and sign the same (height, round) there, so the adversary may hold any correctly signed message
+of a foreign identifier (this is how the identifier-confusion defect, fixed in /repo e1612ceed, broke agreement).
 Nothing else is assumed about delivered messages: the adversary drops, duplicates, reorders, delivers selectively,
 equivocates and fabricates any content.
 
@@ -66,9 +70,12 @@ def Params.honestId (P : Params) (s : Nat) : Bool :=
 def Params.quorum (P : Params) : Nat := (Gen.k_ComputeQuorumAndPartialQuorum (P.n : Int)).1.toNat
 def Params.partialQuorum (P : Params) : Nat := (Gen.k_ComputeQuorumAndPartialQuorum (P.n : Int)).2.toNat
 
-/-- configuration of member `i`: the model's round-robin proposer, the node's container capacity, identifier 1 -/
+/-- the identifier (validator, duty role) of the instance under study; every other non-zero identifier is foreign -/
+def ownIdent : Nat := 1
+
+/-- configuration of member `i`: the model's round-robin proposer, the node's container capacity, identifier `ownIdent` -/
 def Params.cfg (P : Params) (i : Op P) : Cfg :=
-  { committee := P.committee, quorum := P.quorum, partialQuorum := P.partialQuorum, own := opId i, ident := 1,
+  { committee := P.committee, quorum := P.quorum, partialQuorum := P.partialQuorum, own := opId i, ident := ownIdent,
     cutoff := P.cutoff, capacity := Gen.qbft_InstanceContainerDefaultCapacity, valCheck := P.valCheck,
     proposer := fun h r => roundRobinProposer P.committee h r }
 
@@ -89,10 +96,11 @@ inductive Action (P : Params) where
 /-- `m'` is a broadcast of operator `s` with the signed content of `b` -/
 def sameSigned (m' : Msg) (s : Nat) (b : Base) : Bool :=
   m'.signers == [s] && m'.type == b.type && m'.height == b.height && m'.round == b.round &&
-  m'.root == b.root && m'.dataRound == b.dataRound
+  m'.root == b.root && m'.dataRound == b.dataRound && m'.ident == b.ident
 
+/-- a signed part is unconstrained if its signature does not verify or if it carries a foreign identifier -/
 def backed (P : Params) (log : List Msg) (b : Base) : Bool :=
-  !b.sigOk || b.signers.all (fun s => !P.honestId s || log.any (fun m' => sameSigned m' s b))
+  !b.sigOk || b.ident != ownIdent || b.signers.all (fun s => !P.honestId s || log.any (fun m' => sameSigned m' s b))
 
 def authentic (P : Params) (log : List Msg) (m : Msg) : Bool :=
   backed P log m.toBase &&
